@@ -98,6 +98,11 @@ func stateDescriptio(s *Scanner, c byte) *jerr.JApiError {
 }
 
 func stateDescriptionTextBeginStarter(s *Scanner, c byte) *jerr.JApiError {
+	if c == '\n' && s.curIndex > 0 && s.data.Byte(s.curIndex-1) == '\r' {
+		// The second byte of the CRLF which ends the line of the keyword: the
+		// text begins on the next line, as it does with the other line endings.
+		return nil
+	}
 	s.found(TextBegin)
 	s.step = stateDescriptionTextBegin
 	return stateDescriptionTextBegin(s, c)
